@@ -2,7 +2,7 @@
 From Coq Require Import ZArith String Bool Arith Lia List.
 From GM Require Import Base.Res Model.SystemGro Proofs.SystemGroInit Proofs.SystemGroAccess.
 Import ListNotations.
-Open Scope nat_scope.
+Local Open Scope nat_scope.
 
 (* the iterated residues are the tiling, whatever state the iteration starts from *)
 Lemma iterated_is_split f st s st0 st1 rs :
@@ -207,12 +207,12 @@ Proof.
   destruct (init_view f st s H) as [es [E [R _]]]. intros k r Hr stx. unfold residue in *.
   assert (Lk : k < length (split_res (g_records f))) by (apply nth_error_Some; rewrite Hr; discriminate).
   split.
-  - pose proof (getitem_int_spec f s es _ E R (Z.of_nat k) stx) as G. unfold norm_index in G.
+  - pose proof (getitem_int_spec f s es _ E R (Z.of_nat k) stx) as G. unfold norm_index in G. unfold residue in *.
     replace (0 <=? Z.of_nat k)%Z with true in G by (symmetry; apply Z.leb_le; lia).
     replace (Z.of_nat k <? Z.of_nat (length (split_res (g_records f))))%Z with true in G by (symmetry; apply Z.ltb_lt; lia).
     rewrite Nat2Z.id in G. destruct G as [r' [sty [Hr' G]]]. rewrite Hr in Hr'. inversion Hr'; subst. eauto.
   - pose proof (getitem_int_spec f s es _ E R (Z.of_nat k - Z.of_nat (length (split_res (g_records f)))) stx) as G.
-    unfold norm_index in G.
+    unfold norm_index in G. unfold residue in *.
     replace (0 <=? Z.of_nat k - Z.of_nat (length (split_res (g_records f))))%Z with false in G by (symmetry; apply Z.leb_gt; lia).
     replace (0 <=? Z.of_nat (length (split_res (g_records f))) + (Z.of_nat k - Z.of_nat (length (split_res (g_records f)))))%Z
       with true in G by (symmetry; apply Z.leb_le; lia).
@@ -233,7 +233,7 @@ Proof.
   assert (Pos : 1 <= length (split_res (g_records f))).
   { destruct (g_records f) as [|a0 t0]; [contradiction|].
     destruct (chain_head _ _ (split_res_chain a0 t0)) as [g [t [-> _]]]. simpl. lia. }
-  pose proof (getitem_int_spec f s es _ E R i stx) as G. unfold norm_index in G.
+  pose proof (getitem_int_spec f s es _ E R i stx) as G. unfold norm_index in G. unfold residue in *.
   destruct (0 <=? i)%Z eqn:P.
   - apply Z.leb_le in P. replace (i <? Z.of_nat (length (split_res (g_records f))))%Z with false in G
       by (symmetry; apply Z.ltb_ge; lia).
